@@ -82,29 +82,32 @@ def r26_parent_hook(closure, call_prefix):
     return hook
 
 
-def r27_drop_zip_counter(body, fired):
-    msk = X.mask(body)
-    m = re.search(r'\bfor\s*\(\s*(\w+)\s*,\s*(\w+)\s*\)\s*in\s*\(1\.\.\)\s*\.zip\(', msk)
-    if not m:
-        raise X.ExtractError('R27: `for (cnt, x) in (1..).zip(E)` not found')
-    ob = m.end() - 1
-    cb = X.match_close(msk, ob)
-    rest = re.match(r'\s*\{', msk[cb + 1:])
-    if not rest:
-        raise X.ExtractError('R27: unexpected loop header')
-    lb = cb + 1 + rest.end() - 1
-    le = X.match_close(msk, lb)
-    cnt = m.group(1)
-    if re.search(r'\b%s\b' % re.escape(cnt), msk[lb:le + 1]):
-        raise X.ExtractError('R27: the counter %s is used in the loop body' % cnt)
-    new = 'for %s in %s ' % (m.group(2), body[ob + 1:cb])
-    fired.append('R27 for (%s, %s) in (1..).zip(E) -> for %s in E (the counter is not used after R2)' % (cnt, m.group(2), m.group(2)))
-    return body[:m.start()] + X._pad(new, body[m.start():cb + 1]) + body[cb + 1:]
+def r27_drop_zip_counter(label='', header_extra='', body_prefix=''):
+    """-> hook; `label` (`it: `), `header_extra` (loop invariants) and `body_prefix` (ghost code at the top of the loop body) are R8 splices"""
+    def hook(body, fired):
+        msk = X.mask(body)
+        m = re.search(r'\bfor\s*\(\s*(\w+)\s*,\s*(\w+)\s*\)\s*in\s*\(1\.\.\)\s*\.zip\(', msk)
+        if not m:
+            raise X.ExtractError('R27: `for (cnt, x) in (1..).zip(E)` not found')
+        ob = m.end() - 1
+        cb = X.match_close(msk, ob)
+        rest = re.match(r'\s*\{', msk[cb + 1:])
+        if not rest:
+            raise X.ExtractError('R27: unexpected loop header')
+        lb = cb + 1 + rest.end() - 1
+        le = X.match_close(msk, lb)
+        cnt = m.group(1)
+        if re.search(r'\b%s\b' % re.escape(cnt), msk[lb:le + 1]):
+            raise X.ExtractError('R27: the counter %s is used in the loop body' % cnt)
+        new = 'for %s in %s%s %s{%s' % (m.group(2), label, body[ob + 1:cb], header_extra.replace('\n', X.SEP), body_prefix.replace('\n', X.SEP))
+        fired.append('R27 for (%s, %s) in (1..).zip(E) -> for %s in E (the counter is not used after R2)' % (cnt, m.group(2), m.group(2)))
+        return body[:m.start()] + X._pad(new, body[m.start():lb + 1]) + body[lb + 1:]
+    return hook
 
 
-def r28_for_owned(pattern_rx, ctor, itname, header_extra=''):
+def r28_for_owned(pattern_rx, ctor, itname, header_extra='', body_prefix=''):
     """-> hook: the single loop `for PAT in EXPR {` whose header matches `pattern_rx` (groups: 1 = PAT, 2 = EXPR) becomes
-    `let mut IT = CTOR(EXPR); while let Some(PAT) = IT.next() HEADER_EXTRA {`"""
+    `let mut IT = CTOR(EXPR); while let Some(PAT) = IT.next() HEADER_EXTRA { BODY_PREFIX`  (HEADER_EXTRA = loop invariants, BODY_PREFIX = ghost code: both R8)"""
     def hook(body, fired):
         msk = X.mask(body)
         hits = list(re.finditer(pattern_rx, msk))
@@ -112,7 +115,7 @@ def r28_for_owned(pattern_rx, ctor, itname, header_extra=''):
             raise X.ExtractError('R28: /%s/ matches %d times' % (pattern_rx, len(hits)))
         m = hits[0]
         pat, expr = body[m.start(1):m.end(1)], body[m.start(2):m.end(2)]
-        new = 'let mut %s = %s(%s); while let Some(%s) = %s.next() %s{' % (itname, ctor, expr.strip(), pat.strip(), itname, header_extra)
+        new = 'let mut %s = %s(%s); while let Some(%s) = %s.next() %s{%s' % (itname, ctor, expr.strip(), pat.strip(), itname, header_extra.replace('\n', X.SEP), body_prefix.replace('\n', X.SEP))
         fired.append('R28 for %s in %s -> let mut %s = %s(..); while let Some(..) = %s.next()' % (X.norm_ws(pat), X.norm_ws(expr), itname, ctor, itname))
         return body[:m.start()] + X._pad(new, body[m.start():m.end()]) + body[m.end():]
     return hook
